@@ -106,6 +106,9 @@ pub struct Crash {
     pub at: usize,
     /// whether that write reached the disk
     pub applied: bool,
+    /// instead of the process dying, the write FAILS: `set_state` returns an error to the caller
+    /// (I/O error), nothing is written, and the process goes on with whatever the code does then
+    pub fail: bool,
 }
 
 #[derive(Clone, Debug, Default)]
@@ -295,6 +298,9 @@ impl EngineInterface for SimEngine {
         }
         let k = self.0.set_state_calls.fetch_add(1, SeqCst);
         if let Some(c) = self.0.crash {
+            if c.at == k && c.fail {
+                return Err(anyhow::format_err!("injected I/O error: the replica state could not be written").into());
+            }
             if c.at == k {
                 if c.applied {
                     *self.0.state.lock().unwrap() = through_the_codec(state)?;
@@ -468,7 +474,10 @@ pub fn step(w: &World, idx: usize, local: &Local, input: &Input, policy: &Policy
             Res { snap: snap_in, sent: vec![], outcome: Some(Err(format!("PANIC: {}", p.lines().next().unwrap_or("")))), blocked: false, deadline_expired: false, synced: 0, published: None, runner_error: None }
         }
     };
-    let crashed = eng.0.crashed.load(SeqCst) || panicked.is_some();
+    // an internal error of a handler ends StateMachine::run: the consensus component stops and the
+    // node has to be restarted - for the search that is a crash at that point
+    let stopped = matches!(&res.outcome, Some(Err(e)) if e.starts_with("Internal") && !e.contains("Canceled"));
+    let crashed = eng.0.crashed.load(SeqCst) || panicked.is_some() || (stopped && policy.crash.is_some_and(|c| c.fail));
     let durable = eng.0.state.lock().unwrap().clone();
     let blocks: Vec<v2::FinalBlock> = eng
         .0
